@@ -11,29 +11,39 @@ NOT_CARRIED = ["String, Lift, PosMarker, the comment / indentation / tag-name pa
                "the _ParserMeta debug wrapper (_debug_hook) around every process()",
                "the interface P.process (ok/npos/val) is the denotation each class's contract DEFINES by its equation; that a grammar built from these classes computes the composed denotation: structural induction over grammar terms (meta-step)",
                "the shipped grammars as wholes (JSON example grammar vs json; tag language precedence as parsed): whole-grammar language "
-               "equivalence is not decided; taglang: only And/Or/Not.test are under contract",
+               "equivalence is not decided deductively - bounded stand-ins only (they found the fixed defects 445b74d and d0eb441); taglang: only "
+               "And/Or/Not.test are under contract; sep_by / Lift / String are not under contract",
                "termination of Many over non-consuming children (excluded by the property's own quantifier)"]
 
 
 def bounded(check):
-    """bounded stand-in for the shipped tag-expression grammar against boolean evaluation under the stated precedence"""
+    """bounded stand-ins: (a) the shipped tag-expression grammar against boolean evaluation under the stated precedence; (b) every small grammar
+    term against a reference PEG interpreter, and the shipped JSON grammar against json.loads"""
     import json, os, subprocess
-    n = 3 if check.tier == "quick" else 4
     here = os.path.dirname(os.path.dirname(os.path.abspath(__file__)))
-    p = subprocess.run(["/venv/bin/python", os.path.join(here, "bounded", "taglang_exhaustive.py"), check.repo.root, str(n)],
-                       stdout=subprocess.PIPE, stderr=subprocess.PIPE, universal_newlines=True, timeout=3000)
-    line = (p.stdout.strip().splitlines() or ["{}"])[-1]
-    try:
-        info = json.loads(line)
-    except ValueError:
-        info = {"error": (p.stderr or p.stdout)[-400:]}
-    out = dict(name="taglang.parse(e).test(tags) == boolean evaluation under ! > & > (| ,)", level="bounded",
-               bound="all expressions with <= %d tags from {a,b,c}, optional !, parentheses nested once, all 8 tag sets" % n, result=info,
-               violation=(p.returncode == 1), error=(p.returncode not in (0, 1)))
-    if p.returncode == 1:
-        os.makedirs(os.path.join(here, "replays"), exist_ok=True)
-        path = os.path.join(here, "replays", "C19-bounded.json")
-        cmd = "/venv/bin/python -c 'from insights.core.taglang import parse; print(parse(%r).test(%r))'" % (info.get("expr"), info.get("tags"))
-        json.dump(dict(obligation="bounded:taglang==reference", witness=info, replay_cmd=cmd), open(path, "w"), indent=1)
-        out["replay"] = path
-    return [out]
+    outs = []
+    n = 3 if check.tier == "quick" else 4
+    jobs = [("taglang.parse(e).test(tags) == boolean evaluation under ! > & > (| ,)", "taglang_exhaustive.py", [str(n)],
+             "all expressions with <= %d tags from {a,b,c}, optional !, parentheses nested once, all 8 tag sets" % n, "C19-bounded.json",
+             lambda info: "/venv/bin/python -c 'from insights.core.taglang import parse; print(parse(%r).test(%r))'" % (info.get("expr"), info.get("tags"))),
+            ("every grammar term == reference PEG interpreter (accept / value / position); JSON example grammar == json.loads", "peg_small_scope.py",
+             ["3", "quick" if check.tier == "quick" else "full"],
+             "terms of depth <= 2 over 6 leaves and 8 combinators (%s), inputs over {a,b} up to length 3; 93 JSON documents + 6 malformed"
+             % ("every third depth-1 term as a sub-term" if check.tier == "quick" else "all"), "C19-bounded-peg.json", None)]
+    for name, script, args, bound, rfile, cmdf in jobs:
+        p = subprocess.run(["/venv/bin/python", os.path.join(here, "bounded", script), check.repo.root] + args,
+                           stdout=subprocess.PIPE, stderr=subprocess.PIPE, universal_newlines=True, timeout=6000)
+        line = (p.stdout.strip().splitlines() or ["{}"])[-1]
+        try:
+            info = json.loads(line)
+        except ValueError:
+            info = {"error": (p.stderr or p.stdout)[-400:]}
+        out = dict(name=name, level="bounded", bound=bound, result=info, violation=(p.returncode == 1), error=(p.returncode not in (0, 1)))
+        if p.returncode == 1:
+            os.makedirs(os.path.join(here, "replays"), exist_ok=True)
+            path = os.path.join(here, "replays", rfile)
+            cmd = cmdf(info) if cmdf else "/venv/bin/python %s %s %s" % (os.path.join(here, "bounded", script), check.repo.root, " ".join(args))
+            json.dump(dict(obligation="bounded:" + script, witness=info, replay_cmd=cmd), open(path, "w"), indent=1)
+            out["replay"] = path
+        outs.append(out)
+    return outs
